@@ -257,7 +257,25 @@ OTHER_MODES_OUT = ["td_same", "td_same", "td_same", "td_missing", "td_extra", "t
 OTHER_MODES_INPLACE = ["td_same", "td_same", "td_same", "td_missing", "td_extra", "td_both", "scalar", "t0", "t_batch", "t_bcast"]
 
 
-def run_binary_case(ctx, name, ref, self_kind, other_kind, mode, other_mode, dflt_mode, site):
+def wrap_container(kind, td):
+    """the same content as another container kind: a tensorclass whose fields are the first-level keys / row 0 of a parent"""
+    if kind == "tensorclass":
+        from typing import Any
+        from tensordict import tensorclass
+        cls = tensorclass(type("C09TC", (), {"__annotations__": {k: Any for k in td.keys()}}))
+        return cls._from_tensordict(td)
+    if kind == "sub_td":
+        was_locked = td.is_locked
+        base = td.unlock_() if was_locked else td
+        parent = torch.stack([base, base.apply(torch.zeros_like)], 0)
+        if was_locked:
+            base.lock_()
+            parent.lock_()
+        return parent._get_sub_tensordict(0)
+    raise ValueError(kind)
+
+
+def run_binary_case(ctx, name, ref, self_kind, other_kind, mode, other_mode, dflt_mode, site, container=None):
     """one case: build operands, ask the model, call the implementation, compare, run the oracle."""
     run, rng = ctx.run, ctx.rng
     batch, s_order, s_leaves = gen_self(ctx, self_kind)
@@ -336,6 +354,11 @@ def run_binary_case(ctx, name, ref, self_kind, other_kind, mode, other_mode, dfl
             model = ["ref-undefined", err_class(e)]
 
     # ---- implementation
+    if container is not None:
+        self_td = wrap_container(container, self_td)
+        case["container"] = container
+        run.count(site + ".container", container)
+
     def call():
         if name.startswith("__"):
             return getattr(self_td, name)(other)
@@ -493,10 +516,12 @@ def run_ternary_case(ctx, name, inplace):
     lock_s = rng.random() < 0.3
     self_td = L.build_td({p: v.clone() for p, v in s_leaves.items()}, s_order, batch, lock=lock_s)
     s_dfs = L.dfs_order(s_order)
-    tensors = rng.random() < 0.15        # both operands tensors of ndim>0: the _maybe_broadcast_other path (out-of-place only)
+    # tensor operands of ndim>0 go through _maybe_broadcast_other (out-of-place only): both slots, or one slot next to a
+    # tensordict / scalar operand
+    tmode = rng.choice(["none"] * 6 + ["both", "first", "second"]) if (not inplace and len(batch) > 0) else "none"
     ops, sxs, leaves, dfs, modes = [], [], [], [], []
     for slot, kind in ((1, k1), (2, k2)):
-        if tensors and not inplace and len(batch) > 0:
+        if tmode == "both" or (tmode == "first" and slot == 1) or (tmode == "second" and slot == 2):
             t = gen_tensor_operand(ctx, batch, kind, rng.choice(["t_batch", "t_bcast"]))
             ops.append(t); sxs.append(["sc"]); leaves.append({}); dfs.append([]); modes.append("tensor")
         elif slot == 2 and scalar2 and rng.random() < 0.5:
@@ -528,7 +553,7 @@ def run_ternary_case(ctx, name, inplace):
     if "tensor" in modes:
         # _maybe_broadcast_other(op, 2): one common broadcast shape for self and both tensors
         try:
-            bs = list(torch.broadcast_shapes(tuple(batch), *[tuple(o.shape) for o in ops]))
+            bs = list(torch.broadcast_shapes(tuple(batch), *[tuple(o.shape) for o in ops if isinstance(o, torch.Tensor)]))
         except Exception:  # noqa: BLE001
             bs = None
         if bs is None:
@@ -536,9 +561,15 @@ def run_ternary_case(ctx, name, inplace):
         else:
             exp_bs = bs
             env[("l", 0)] = {p: v.expand(bs + list(L.FEAT[p])) for p, v in s_leaves.items()}
+            for side in (1, 2):
+                env[("l", side)] = {p: v.expand(bs + list(L.FEAT[p])) for p, v in leaves[side - 1].items()}
             tabs = {}
             for i, o in enumerate(ops, 1):
                 tabs[i] = {}
+                if not (isinstance(o, torch.Tensor) and o.ndim):
+                    for p in s_leaves:
+                        tabs[i][p] = o
+                    continue
                 for p in s_leaves:
                     a = parse_sx(ctx.drv.ask(sx("c09.bcast", bs, list(o.shape), list(L.FEAT[p]))))
                     idx = torch.tensor(a[2][1:], dtype=torch.long)
@@ -563,12 +594,24 @@ def run_ternary_case(ctx, name, inplace):
     exp = None
     try:
         if "tensor" in modes:
-            bs = list(torch.broadcast_shapes(tuple(batch), *[tuple(o.shape) for o in ops]))
-            out = {}
-            for k, v in s_leaves.items():
-                f = list(L.FEAT[k])
-                out[k] = ref(v.expand(bs + f), *[o.expand(bs).reshape(bs + [1] * len(f)) for o in ops])
-            exp = ("ok", out, bs)
+            bs = list(torch.broadcast_shapes(tuple(batch), *[tuple(o.shape) for o in ops if isinstance(o, torch.Tensor)]))
+            ks = set(s_leaves)
+            if any(m.startswith("td_") and set(lv) != ks for m, lv in zip(modes, leaves)):
+                exp = ("raise",)
+            else:
+                out = {}
+                for k, v in s_leaves.items():
+                    f = list(L.FEAT[k])
+                    args_ = []
+                    for m, lv, o in zip(modes, leaves, ops):
+                        if m.startswith("td_"):
+                            args_.append(lv[k].expand(bs + f))
+                        elif isinstance(o, torch.Tensor) and o.ndim:
+                            args_.append(o.expand(bs).reshape(bs + [1] * len(f)))
+                        else:
+                            args_.append(o)
+                    out[k] = ref(v.expand(bs + f), *args_)
+                exp = ("ok", out, bs)
         else:
             ks = set(s_leaves)
             bad = any(m.startswith("td_") and set(lv) != ks for m, lv in zip(modes, leaves))
@@ -1309,9 +1352,18 @@ def stream_reduce_true(ctx: Ctx):
             dim_sx = ["tuple"] + list(t); kw["dim"] = t
         if keep != "nodef":
             kw["keepdim"] = keep
+        # keyword arguments of the torch reduction must reach it on the reduce=True path too
+        xkw = {}
+        if name in ("std", "var") and rng.random() < 0.5:
+            xkw = {"correction": rng.choice([0, 2])}
+        elif name in ("sum", "prod", "mean", "nansum", "nanmean") and rng.random() < 0.3:
+            xkw = {"dtype": torch.float64 if kind == "smallint" else torch.float32}
+        kw.update(xkw)
         case = {"op": name, "batch": list(batch), "feats": {".".join(p): list(f) for p, f in feats.items()}, "order": [".".join(p) for p in dfs],
-                "dim": str(kw.get("dim", "absent")), "keepdim": str(keep)}
-        run.case(("reduce_true", name, tuple(batch), str(feats), str(dim_sx), str(keep), tuple(dfs)), nontrivial=True)
+                "dim": str(kw.get("dim", "absent")), "keepdim": str(keep), "kwargs": str(xkw)}
+        run.case(("reduce_true", name, tuple(batch), str(feats), str(dim_sx), str(keep), tuple(dfs), str(xkw)), nontrivial=True)
+        if xkw:
+            run.count("reduce_true.kwarg", list(xkw)[0])
         run.count("reduce_true.dim", spell)
         ans = parse_sx(ctx.drv.ask(sx("c09.reduce_true", list(batch), dim_sx, keep if keep != "nodef" else "nodef")))
         vals = [leaves[p] for p in dfs]          # `_values_list(True, True)` order
@@ -1319,14 +1371,14 @@ def stream_reduce_true(ctx: Ctx):
             if ans[0] == "err":
                 model = ["err", ans[1]]
             elif ans[1] == "flatall":
-                model = ["ok", _canon_any(getattr(torch, name)(torch.cat([v.contiguous().flatten() for v in vals], 0)))]
+                model = ["ok", _canon_any(getattr(torch, name)(torch.cat([v.contiguous().flatten() for v in vals], 0), **xkw))]
             elif ans[1] == "feature":
                 vv = [(v.flatten(nd, -1) if v.ndim > nd else v.unsqueeze(-1)) for v in vals]
-                model = ["ok", _canon_any(getattr(torch, name)(torch.cat(vv, -1), dim=-1, keepdim=False))]
+                model = ["ok", _canon_any(getattr(torch, name)(torch.cat(vv, -1), dim=-1, keepdim=False, **xkw))]
             else:
                 _, c, ds, single, kd = ans[1]
                 k2 = {} if kd == "nodef" else {"keepdim": kd == "true"}
-                model = ["ok", _canon_any(getattr(torch, name)(torch.cat(vals, c), dim=(ds[0] if single == "true" else tuple(ds)), **k2))]
+                model = ["ok", _canon_any(getattr(torch, name)(torch.cat(vals, c), dim=(ds[0] if single == "true" else tuple(ds)), **k2, **xkw))]
         except Exception as e:  # noqa: BLE001  torch rejects the call the model (and the code) makes
             model = ["err", err_class(e)]
         r = L.impl_call(lambda: getattr(td, name)(**kw))
@@ -1336,9 +1388,9 @@ def stream_reduce_true(ctx: Ctx):
         if spell in ("nodef", "feature") and keep is not True:
             try:
                 if spell == "nodef":
-                    want = getattr(torch, name)(torch.cat([v.reshape(-1) for v in leaves.values()]))
+                    want = getattr(torch, name)(torch.cat([v.reshape(-1) for v in leaves.values()]), **xkw)
                 else:
-                    want = getattr(torch, name)(torch.cat([v.reshape(list(batch) + [-1]) for v in leaves.values()], -1), dim=-1)
+                    want = getattr(torch, name)(torch.cat([v.reshape(list(batch) + [-1]) for v in leaves.values()], -1), dim=-1, **xkw)
                 want = _canon_any(want)
             except Exception:  # noqa: BLE001
                 want = None
@@ -1376,3 +1428,465 @@ def _close(a, b):
         if abs(x - y) > 1e-9 * max(1.0, abs(x), abs(y)):
             return False
     return True
+
+
+# =========================================================================== container matrix (oracle only)
+
+def container_matrix(ctx: Ctx):
+    """every container kind x {unary, scalar / tensor / same-kind tensordict operand, in-place, reductions (per entry and
+    reduce=True), all/any}: per-key torch on the dense values; leaves have different feature shapes"""
+    run, rng = ctx.run, ctx.rng
+    from tensordict import TensorDict, lazy_stack
+    from tensordict.nn import TensorDictParams
+    site = "container"
+    kinds = ["lazy0", "lazy1", "sub_td", "params", "nested_lazy"]
+    feats = {("a",): (), ("b",): (2,), ("n", "x"): (3,), ("n", "y"): ()}
+
+    def make(kind, vals, batch):
+        order = list(vals)
+        rng.shuffle(order)
+        td = L.build_td({p: v.clone() for p, v in vals.items()}, order, batch)
+        if kind == "lazy0":
+            return lazy_stack([m.clone() for m in td.unbind(0)], 0)
+        if kind == "lazy1":
+            return lazy_stack([m.clone() for m in td.unbind(1)], 1)
+        if kind == "sub_td":
+            big = L.build_td({p: torch.cat([v, v + 1000], 0) for p, v in vals.items()}, order, (2 * batch[0],) + tuple(batch[1:]))
+            return big._get_sub_tensordict(slice(0, batch[0]))
+        if kind == "params":
+            return TensorDictParams(td, no_convert=True)
+        if kind == "nested_lazy":      # a plain tensordict whose nested entry "n" is a lazy stack
+            n = td.get("n")
+            td2 = td.exclude("n")
+            td2["n"] = lazy_stack([m.clone() for m in n.unbind(0)], 0)
+            return td2
+        return td
+    n_it = ctx.n(4, 25)
+    for it in range(n_it):
+        for kind in kinds:
+            batch = (2, 3)
+            fl = kind == "params" or rng.random() < 0.5
+            vals = {p: (L.gen_vals(rng, batch + f, "float") if fl else L.gen_vals(rng, batch + f, "smallint")) for p, f in feats.items()}
+            base = {"container": kind, "batch": list(batch), "float": fl}
+
+            def chk(label, call, expected, bs=batch):
+                run.case(("container_matrix", kind, label, it))
+                run.count("container.kind", f"matrix:{kind}")
+                with torch.no_grad():
+                    _check_td(ctx, site, dict(base, op=label), f"matrix:{kind}:{label}", call, expected, bs)
+
+            def chk_tensor(label, call, want):
+                run.case(("container_matrix", kind, label, it))
+                run.count("container.kind", f"matrix:{kind}")
+                with torch.no_grad():
+                    r = L.impl_call(call)
+                fp = f"matrix:{kind}:{label}"
+                if want is None:
+                    run.count("container.oracle_skipped", fp)
+                elif r[0] == "err":
+                    run.oracle_fail(site, dict(base, op=label), f"raised {r[2]}", fp + f":raises:{r[1]}")
+                elif not isinstance(r[1], torch.Tensor) or not _close(L.canon_tensor(r[1]), L.canon_tensor(want)):
+                    run.oracle_fail(site, dict(base, op=label), f"got {L.canon_tensor(r[1]) if isinstance(r[1], torch.Tensor) else type(r[1])}, torch on all values gives {L.canon_tensor(want)}", fp + ":values")
+                else:
+                    run.oracle_ok(site)
+            c = make(kind, vals, batch)
+            chk("neg", lambda: c.neg(), {p: -v for p, v in vals.items()})
+            chk("abs", lambda: abs(c), {p: v.abs() for p, v in vals.items()})
+            chk("mul_scalar", lambda: c * 3, {p: v * 3 for p, v in vals.items()})
+            chk("rsub_scalar", lambda: 2 - c, {p: 2 - v for p, v in vals.items()})
+            t = L.gen_vals(rng, batch, "float" if fl else "smallint")
+            chk("add_tensor", lambda: c + t, {p: v + t.reshape(batch + (1,) * (v.ndim - 2)) for p, v in vals.items()})
+            ovals = {p: (L.gen_vals(rng, batch + f, "float") if fl else L.gen_vals(rng, batch + f, "smallint")) for p, f in feats.items()}
+            if kind not in ("nested_lazy",):
+                o = make(kind if kind != "params" else "dense", ovals, batch)
+                chk("sub_same_kind", lambda: c - o, {p: vals[p] - ovals[p] for p in vals})
+                chk("maximum_same_kind", lambda: c.maximum(o), {p: torch.maximum(vals[p], ovals[p]) for p in vals})
+            if kind not in ("params",):
+                c2 = make(kind, vals, batch)
+                chk("iadd_scalar", lambda: c2.add_(5), {p: v + 5 for p, v in vals.items()})
+                c3 = make(kind, vals, batch)
+                chk("mul__tensor", lambda: c3.mul_(t), {p: v * t.reshape(batch + (1,) * (v.ndim - 2)) for p, v in vals.items()})
+            # reductions per entry
+            d = rng.choice([0, 1, -1, -2])
+            chk(f"sum(dim)", lambda: c.sum(dim=d), {p: v.sum(d % 2) for p, v in vals.items()}, [b for i, b in enumerate(batch) if i != d % 2])
+            chk(f"amax(dim,keepdim)", lambda: c.amax(dim=d, keepdim=True), {p: v.amax(d % 2, keepdim=True) for p, v in vals.items()},
+                [1 if i == d % 2 else b for i, b in enumerate(batch)])
+            if fl:
+                chk("mean(feature)", lambda: c.mean(dim="feature"), {p: (v.flatten(2, -1) if v.ndim > 2 else v.unsqueeze(-1)).mean(-1) for p, v in vals.items()}, batch)
+            # reduce=True over leaves of different sizes
+            allv = torch.cat([v.reshape(-1) for v in vals.values()])
+            chk_tensor("sum(reduce)", lambda: c.sum(reduce=True), allv.sum())
+            chk_tensor("amax(reduce)", lambda: c.amax(reduce=True), allv.amax())
+            if fl:
+                chk_tensor("mean(reduce)", lambda: c.mean(reduce=True), allv.mean())
+                chk_tensor("std(reduce)", lambda: c.std(reduce=True), allv.std())
+                featcat = torch.cat([v.reshape(list(batch) + [-1]) for v in vals.values()], -1)
+                chk_tensor("mean(feature,reduce)", lambda: c.mean(dim="feature", reduce=True), featcat.mean(-1))
+            # reduce=True with an explicit batch dim / torch keyword arguments (leaves of one shape so that they concatenate)
+            svals = {p: L.gen_vals(rng, batch + (2,), "float") for p in feats}
+            cs = make(kind, svals, batch)
+            chk_tensor("sum(dim,reduce)", lambda: cs.sum(dim=d, reduce=True), torch.cat(list(svals.values()), d % 2).sum(d % 2))
+            chk_tensor("amax(dim,reduce,keepdim)", lambda: cs.amax(dim=d, reduce=True, keepdim=True), torch.cat(list(svals.values()), d % 2).amax(d % 2, keepdim=True))
+            chk_tensor("std(reduce,correction=0)", lambda: cs.std(reduce=True, correction=0), torch.cat([v.reshape(-1) for v in svals.values()]).std(correction=0))
+            chk_tensor("var(dim,reduce,correction=0)", lambda: cs.var(dim=d, reduce=True, correction=0), torch.cat(list(svals.values()), d % 2).var(d % 2, correction=0))
+            # all / any
+            bvals = {p: v > 0 for p, v in vals.items()}
+            cb = make(kind if kind != "params" else "dense", bvals, batch)
+            chk("any(dim)", lambda: cb.any(dim=d), {p: v.any(d % 2) for p, v in bvals.items()}, [b for i, b in enumerate(batch) if i != d % 2])
+            r = L.impl_call(lambda: cb.all())
+            run.case(("container_matrix", kind, "all()", it))
+            want = all(bool(v.all()) for v in bvals.values())
+            if r[0] != "ok" or bool(r[1]) != want:
+                run.oracle_fail(site, dict(base, op="all()"), f"all() = {r[1] if r[0] == 'ok' else r[2]} expected {want}", f"matrix:{kind}:all():values")
+            else:
+                run.oracle_ok(site)
+
+
+# =========================================================================== lazy stacks as operands (modelled)
+
+def stream_lazy_binary(ctx: Ctx):
+    """self is a lazy stack; the operand is a lazy stack along the same dim, a lazy stack along the other dim, a regular
+    tensordict, a batch-shaped tensor or a scalar. Model: Model/C09KV.lazyBinopRepaired (members keyed (i, key))."""
+    run, rng = ctx.run, ctx.rng
+    from tensordict import LazyStackedTensorDict, lazy_stack
+    ops = [("add", False), ("mul", False), ("sub", False), ("maximum", False), ("add_", True), ("mul_", True), ("sub_", True)]
+    for it in range(ctx.n(300, 1500)):
+        name, inplace = rng.choice(ops)
+        ref = L.ref_op(name)
+        batch = rng.choice([(2, 3), (2, 2), (3, 2)])
+        d = rng.choice([0, 1])
+        n = batch[d]
+        paths = rng.sample(L.KEY_POOL, rng.randint(1, 4))
+        dense_s = L.gen_leaves(rng, paths, batch, "int")
+        # members, each inserted in its own order
+        mem_orders, members = [], []
+        for i in range(n):
+            o = list(paths); rng.shuffle(o)
+            mem_orders.append(L.dfs_order(o))
+            members.append(L.build_td({p: dense_s[p].select(d, i).clone() for p in paths}, o, tuple(b for j, b in enumerate(batch) if j != d)))
+        lz = lazy_stack(members, d)
+        okind = rng.choice(["same", "same", "otherdim", "dense", "dense", "tensor", "scalar"])
+        if name in ("maximum",) and okind == "scalar":
+            okind = "tensor"
+        rel = rng.choice(["same", "same", "same", "missing", "extra"]) if okind in ("same", "otherdim", "dense") else "same"
+        o_paths = list(paths)
+        if rel == "missing" and len(o_paths) > 1:
+            o_paths = o_paths[:-1]
+        elif rel == "missing":
+            rel = "same"
+        if rel == "extra":
+            o_paths = o_paths + [rng.choice(L.EXTRA_POOL)]
+        dense_o, other, o_sx, tensor = {}, None, None, None
+        if okind in ("same", "otherdim", "dense"):
+            dense_o = L.gen_leaves(rng, o_paths, batch, "int")
+            oo = list(o_paths); rng.shuffle(oo)
+            if okind == "dense":
+                other = L.build_td(dense_o, oo, batch)
+            else:
+                dd = d if okind == "same" else 1 - d
+                oms = []
+                for i in range(batch[dd]):
+                    o2 = list(o_paths); rng.shuffle(o2)
+                    oms.append(L.build_td({p: dense_o[p].select(dd, i).clone() for p in o_paths}, o2, tuple(b for j, b in enumerate(batch) if j != dd)))
+                other = lazy_stack(oms, dd)
+            keys_sx = L.paths_sx(L.dfs_order(oo))
+            o_sx = ["same", [keys_sx for _ in range(n)]] if okind == "same" else ["split", [["td", keys_sx] for _ in range(n)]]
+        elif okind == "tensor":
+            tensor = L.gen_vals(rng, batch, "int")
+            other = tensor
+            o_sx = ["split", [["sc"] for _ in range(n)]]
+        else:
+            other = rng.randint(1, 3)
+            o_sx = ["sc"]
+        case = {"op": name, "batch": list(batch), "stack_dim": d, "members": [[".".join(p) for p in mo] for mo in mem_orders],
+                "other": okind, "keys": rel, "other_keys": [".".join(p) for p in o_paths] if dense_o else None}
+        run.case(("lazy_binary", name, okind, rel, tuple(batch), d, tuple(map(tuple, mem_orders))), nontrivial=okind != "scalar")
+        run.count("lazy_binary.other", f"{okind}:{rel}")
+        ans = parse_sx(ctx.drv.ask(sx("c09.lazy_binop", "inplace" if inplace else "out", [L.paths_sx(mo) for mo in mem_orders], o_sx, None)))
+        # ---- model evaluated with torch
+        if ans[0] == "err":
+            model = ["err", ans[1]]
+        else:
+            try:
+                mem_out = []
+                for i, m in enumerate(ans[1:]):
+                    out = {}
+                    for ent in m:
+                        path = tuple(ent[0])
+
+                        def ev(t, i=i, path=path):
+                            if t[0] == "l":
+                                side, key = t[1], tuple(str(x) for x in t[2])
+                                j, pth = int(key[0]), key[1:]
+                                src = dense_s if side == 0 else dense_o
+                                return src[pth].select(d, j)
+                            if t[0] == "sc":
+                                if tensor is not None:
+                                    sl = tensor.select(d, i)
+                                    return sl.reshape(list(sl.shape) + [1] * len(L.FEAT[path]))
+                                return other
+                            return ref(*[ev(x) for x in t[1:]])
+                        out[path] = ev(ent[1])
+                    mem_out.append(L.canon_kv(out))
+                model = ["ok", mem_out]
+            except Exception as e:  # noqa: BLE001
+                model = ["ref-undefined", err_class(e)]
+        r = L.impl_call(lambda: getattr(lz, name)(other))
+        if r[0] == "err":
+            impl = ["err", r[1]]
+        else:
+            res = lz if inplace else r[1]
+            if inplace and r[1] is not lz:
+                impl = ["not-self"]
+            elif not isinstance(res, LazyStackedTensorDict) or res.stack_dim != d:
+                impl = ["not-a-lazy-stack", type(res).__name__]
+            else:
+                impl = ["ok", [L.canon_kv(leaf_dict(m)) for m in res.tensordicts]]
+        if model[0] != "ref-undefined":
+            run.corr("lazy_binary", case, impl, model)
+        # ---- oracle on the dense values
+        if okind in ("same", "otherdim", "dense"):
+            if set(o_paths) != set(paths):
+                run.oracle_ok("container") if impl[0] == "err" else run.oracle_fail(
+                    "container", case, "key sets differ but the call returned a result", f"lazyop:{name}:{okind}:no-raise")
+                continue
+            want = {p: ref(dense_s[p], dense_o[p]) for p in paths}
+        elif okind == "tensor":
+            want = {p: ref(dense_s[p], tensor.reshape(list(batch) + [1] * len(L.FEAT[p]))) for p in paths}
+        else:
+            want = {p: ref(dense_s[p], other) for p in paths}
+        if impl[0] != "ok":
+            run.oracle_fail("container", case, f"raised / wrong type: {r[2] if r[0] == 'err' else impl}", f"lazyop:{name}:{okind}:raises")
+        else:
+            res = lz if inplace else r[1]
+            got = {p: res.get(p if len(p) > 1 else p[0]) for p in paths}
+            if L.canon_kv(got) != L.canon_kv(want):
+                run.oracle_fail("container", case, "values differ from the per-key torch op on the stacked entries", f"lazyop:{name}:{okind}:values")
+            else:
+                run.oracle_ok("container")
+
+
+# =========================================================================== clamp / where (modelled)
+
+def stream_clamp_where(ctx: Ctx):
+    run, rng = ctx.run, ctx.rng
+    # ---- clamp(min, max)
+    for it in range(ctx.n(350, 2000)):
+        batch, s_order, s_leaves = gen_self(ctx, "int")
+        s_dfs = L.dfs_order(s_order)
+        td = L.build_td(s_leaves, s_order, batch, lock=rng.random() < 0.3)
+        kinds = rng.choice([("td", "td"), ("td", "td"), ("td", "td"), ("none", "td"), ("td", "none"), ("sc", "sc"), ("none", "sc"), ("sc", "none"),
+                            ("t0", "t0"), ("tn", "tn"), ("td", "sc"), ("sc", "td"), ("none", "tn")])
+        if len(batch) == 0:
+            kinds = tuple("t0" if k == "tn" else k for k in kinds)
+        bounds, sxs, bleaves = [], [], []
+        for side, kd in enumerate(kinds, 1):
+            if kd == "none":
+                bounds.append(None); sxs.append(None); bleaves.append({})
+            elif kd == "td":
+                mode = rng.choice(["td_same", "td_same", "td_same", "td_missing", "td_extra"])
+                o_order, o_leaves = gen_other_td(ctx, s_dfs, batch, "int", mode)
+                bounds.append(L.build_td(o_leaves, o_order, batch, lock=rng.random() < 0.3))
+                sxs.append(["td", L.paths_sx(L.dfs_order(o_order))]); bleaves.append(o_leaves)
+            elif kd == "sc":
+                bounds.append(rng.randint(-20, 20)); sxs.append(["sc"]); bleaves.append({})
+            elif kd == "t0":
+                bounds.append(L.gen_vals(rng, (), "int")); sxs.append(["sc"]); bleaves.append({})
+            else:
+                bounds.append(L.gen_vals(rng, tuple(batch), "int")); sxs.append(["sc"]); bleaves.append({})
+        case = {"op": "clamp", "batch": list(batch), "self": [".".join(p) for p in s_dfs], "min": kinds[0], "max": kinds[1],
+                "min_keys": [".".join(p) for p in bleaves[0]], "max_keys": [".".join(p) for p in bleaves[1]]}
+        run.case(("clamp", kinds, tuple(s_dfs), tuple(bleaves[0]), tuple(bleaves[1]), tuple(batch), it), nontrivial=True)
+        run.count("clamp.bounds", "+".join(kinds))
+        ans = parse_sx(ctx.drv.ask(sx("c09.clamp", L.paths_sx(s_dfs), sxs[0], sxs[1])))
+
+        def operand(side, path):
+            b = bounds[side - 1]
+            if isinstance(b, torch.Tensor) and b.ndim:
+                return b.reshape(list(b.shape) + [1] * len(L.FEAT[path]))
+            return b
+        if ans[0] == "err":
+            model = ["err", ans[1]]
+        else:
+            try:
+                out = {}
+                for ent in ans[1:]:
+                    path = tuple(ent[0])
+
+                    def ev(t, path=path):
+                        if t[0] == "l":
+                            src = s_leaves if t[1] == 0 else bleaves[t[1] - 1]
+                            return src[tuple(t[2])]
+                        if t[0] == "sc":
+                            return None if t[1] == 0 else operand(t[1], path)
+                        args = t[1:]
+                        if args[0][0] == "sc" and args[0][1] == 91:
+                            return torch.clamp_max(ev(args[1]), ev(args[2]))
+                        if args[0][0] == "sc" and args[0][1] == 92:
+                            return torch.clamp_min(ev(args[1]), ev(args[2]))
+                        x, lo, hi = [ev(a) for a in args]
+                        return x.clamp(lo, hi)
+                    out[path] = ev(ent[1])
+                model = canon_result("ok", out, batch)
+            except Exception as e:  # noqa: BLE001
+                model = ["ref-undefined", err_class(e)]
+        r = L.impl_call(lambda: td.clamp(bounds[0], bounds[1]))
+        impl = ["err", r[1]] if r[0] == "err" else (canon_result("ok", leaf_dict(r[1]), r[1].batch_size) if hasattr(r[1], "batch_size") else ["not-a-td"])
+        if model[0] != "ref-undefined":
+            run.corr("clamp", case, impl, model)
+        # oracle: torch.clamp per key with the bounds' entries under the same key (only when every bound has every key of self)
+        try:
+            if all(k in ("td",) for k in kinds) and all(set(bl) >= set(s_leaves) for bl in bleaves):
+                want = {p: torch.clamp(v, bleaves[0][p], bleaves[1][p]) for p, v in s_leaves.items()}
+            elif "td" not in kinds and not (kinds[0] == "none" and kinds[1] == "none"):
+                want = {p: torch.clamp(v, operand(1, p), operand(2, p)) for p, v in s_leaves.items()}
+            else:
+                want = None
+        except Exception:  # noqa: BLE001
+            want = None
+        if want is None:
+            run.count("clamp.oracle_skipped", "+".join(kinds))
+        elif impl[0] != "ok":
+            run.oracle_fail("ternary", case, f"raised {r[2] if r[0] == 'err' else impl} where torch.clamp gives a value for every key", f"clamp:{'+'.join(kinds)}:raises")
+        elif impl != canon_result("ok", want, batch):
+            run.oracle_fail("ternary", case, "differs from torch.clamp(x, lower, upper) per key (mind lower > upper)", f"clamp:{'+'.join(kinds)}:values")
+        else:
+            run.oracle_ok("ternary")
+    # ---- where(condition, other_td, pad=…)
+    for it in range(ctx.n(250, 1500)):
+        batch, s_order, s_leaves = gen_self(ctx, "int")
+        if len(batch) == 0:
+            continue
+        s_dfs = L.dfs_order(s_order)
+        td = L.build_td(s_leaves, s_order, batch, lock=rng.random() < 0.3)
+        mode = rng.choice(["td_same", "td_same", "td_missing", "td_extra", "td_both"])
+        o_order, o_leaves = gen_other_td(ctx, s_dfs, batch, "int", mode)
+        o_dfs = L.dfs_order(o_order)
+        other = L.build_td(o_leaves, o_order, batch)
+        pad = rng.choice([None, None, 7])
+        cond = L.gen_vals(rng, tuple(batch), "bool")
+        case = {"op": "where", "batch": list(batch), "self": [".".join(p) for p in s_dfs], "other": mode, "other_keys": [".".join(p) for p in o_dfs], "pad": pad}
+        run.case(("where", mode, tuple(s_dfs), tuple(o_dfs), tuple(batch), str(pad), it), nontrivial=True)
+        run.count("where.other", f"{mode}:pad={pad}")
+        ans = parse_sx(ctx.drv.ask(sx("c09.where", L.paths_sx(s_dfs), L.paths_sx(o_dfs), "pad" if pad is not None else None)))
+        if ans[0] == "err":
+            model = ["err", ans[1]]
+        else:
+            out = {}
+            for ent in ans[1:]:
+                path = tuple(ent[0])
+                t = ent[1]
+                cexp = cond.reshape(list(batch) + [1] * len(L.FEAT[path]))
+
+                def ev(a, cexp=cexp):
+                    if a[0] == "l":
+                        return (s_leaves if a[1] == 0 else o_leaves)[tuple(a[2])]
+                    if a[1] == 7:
+                        return cexp
+                    if a[1] == 8:
+                        return ~cexp
+                    return torch.tensor(pad, dtype=torch.int64)
+                c, x, y = [ev(a) for a in t[1:]]
+                out[path] = torch.where(c, x, y)
+            model = canon_result("ok", out, batch)
+        r = L.impl_call(lambda: td.where(cond, other, pad=pad))
+        impl = ["err", r[1]] if r[0] == "err" else canon_result("ok", leaf_dict(r[1]), r[1].batch_size)
+        run.corr("where", case, impl, model)
+        if set(o_leaves) == set(s_leaves):
+            want = {p: torch.where(cond.reshape(list(batch) + [1] * len(L.FEAT[p])), v, o_leaves[p]) for p, v in s_leaves.items()}
+            if impl != canon_result("ok", want, batch):
+                run.oracle_fail("ternary", case, "differs from torch.where(cond, self[k], other[k]) per key", "where:td:values")
+            else:
+                run.oracle_ok("ternary")
+        elif pad is None:
+            run.oracle_ok("ternary") if impl[0] == "err" else run.oracle_fail("ternary", case, "key sets differ, no pad, but no exception", "where:td:no-raise")
+
+
+# =========================================================================== reduce=True without dim: value level
+
+def stream_reduce_all(ctx: Ctx):
+    """td.<op>(reduce=True) against Model/C09KV.reduceAll: exact integer / NaN values, leaves of different sizes and NaN counts"""
+    run, rng = ctx.run, ctx.rng
+    import tensordict.base as B
+    names = [n for n in ("sum", "nansum", "prod", "mean", "nanmean", "amax", "amin")
+             if "reduce" in inspect.signature(getattr(B.TensorDictBase, n)).parameters]
+    for it in range(ctx.n(250, 2500)):
+        name = rng.choice(names)
+        batch = rng.choice([(2,), (3,), (2, 2), (1,)])
+        paths = [("a",), ("b",), ("n", "x"), ("n", "m", "y")][: rng.randint(1, 4)]
+        order = list(paths); rng.shuffle(order)
+        feats = {p: rng.choice([(), (2,), (3,), (1,), (2, 2)]) for p in paths}
+        leaves, sent = {}, {}
+        for p in paths:
+            shape = tuple(batch) + feats[p]
+            n = 1
+            for s in shape:
+                n *= s
+            pool = [-2, -1, 1, 2] if name == "prod" else [-4, -3, -2, -1, 0, 1, 2, 3, 4, 5]
+            vals = [float(rng.choice(pool)) for _ in range(n)]
+            if name != "prod" or n <= 12:
+                pass
+            if rng.random() < (0.6 if name in ("nansum", "nanmean") else 0.15):
+                for i in rng.sample(range(n), rng.randint(0, n)):
+                    vals[i] = float("nan")
+            leaves[p] = torch.tensor(vals, dtype=torch.float64 if name == "prod" else torch.float32).reshape(shape)
+            sent[p] = ["nan" if v != v else int(v) for v in vals]
+        td = L.build_td(leaves, order, batch, lock=rng.random() < 0.2)
+        dfs = L.dfs_order(order)
+        case = {"op": name, "batch": list(batch), "order": [".".join(p) for p in dfs], "leaves": {".".join(p): sent[p] for p in dfs}}
+        run.case(("reduce_all", name, tuple(batch), str(case["leaves"])), nontrivial=True)
+        run.count("reduce_all.op", name)
+        run.count("reduce_all.nleaves", len(paths))
+        ans = parse_sx(ctx.drv.ask(sx("c09.reduce_all", name, [[list(p), sent[p]] for p in dfs])))
+        if ans[0] == "err":
+            model, want = ["err"], None
+        elif ans[0] == "nan":
+            model, want = ["nan"], None
+        elif ans[0] == "int":
+            model, want = ["num", str(int(ans[1]))], float(int(ans[1]))
+        else:
+            model, want = ["num", f"{int(ans[1])}/{int(ans[2])}"], int(ans[1]) / int(ans[2])
+        r = L.impl_call(lambda: getattr(td, name)(reduce=True))
+        if r[0] == "err":
+            impl = ["err"]
+        else:
+            x = r[1]
+            if not isinstance(x, torch.Tensor) or x.ndim != 0:
+                impl = ["not-a-scalar", str(type(x).__name__), str(getattr(x, "shape", None))]
+            else:
+                x = float(x)
+                if x != x:
+                    impl = ["nan"]
+                elif want is not None and abs(x - want) <= 1e-5 * max(1.0, abs(want)):
+                    impl = model
+                else:
+                    impl = ["num", repr(x)]
+        run.corr("reduce_all", case, impl, model)
+
+
+# =========================================================================== other container kinds against the SAME model
+
+def stream_binary_containers(ctx: Ctx):
+    """a tensorclass / a sub-tensordict as self of the fused binary ops, in-place forms and operators: same Lean model, same oracle"""
+    run, rng = ctx.run, ctx.rng
+    ops = _binary_ops(ctx)
+    per = ctx.n(12, 80)
+    for kind in ("tensorclass", "sub_td"):
+        for op in ops:
+            ref = L.ref_op(op["name"])
+            for _ in range(per):
+                om = rng.choice(OTHER_MODES_OUT)
+                if op["name"] in ("maximum", "minimum") and om == "scalar":
+                    om = "t0"
+                dm = "none"
+                if op["default"] and om.startswith("td_") and rng.random() < 0.45:
+                    dm = rng.choice(["inter", "val"])
+                    if kind == "tensorclass" and om in ("td_extra", "td_both"):
+                        dm = "inter"     # a tensorclass cannot hold entries that are not fields of its class: default=<value> raises ValueError by design
+                run_binary_case(ctx, op["name"], ref, op["self_kind"], op["other_kind"], "out", om, dm, "binary_containers", container=kind)
+            if op["inplace"]:
+                for _ in range(per // 2):
+                    om = rng.choice(OTHER_MODES_INPLACE)
+                    if op["name"] in ("maximum", "minimum") and om == "scalar":
+                        om = "t0"
+                    run_binary_case(ctx, op["inplace"], ref, op["self_kind"], op["other_kind"], "inplace", om, "none", "binary_containers", container=kind)
